@@ -151,6 +151,10 @@ def make_files(payload):
             data = {}
             if 'rvint' in present:
                 data['rvint'] = np.array([[rng.randrange(-2 ** 31, 2 ** 31) for _ in range(3)] for _ in range(n)], dtype=np.int32)
+                if rng.random() < 0.4:
+                    # the raw column stored flat, (3N,) words instead of (N, 3): unpack_rvint documents both layouts; the
+                    # file still holds n particles
+                    data['rvint'] = data['rvint'].reshape(-1)
             if 'pack9' in present:
                 recs = []
                 if rng.random() < 0.8:
